@@ -135,7 +135,7 @@ func (d *Decoder) DecodeTag() (tag int, wireType WireType, err error) {
 	if err != nil {
 		return 0, -1, fmt.Errorf("invalid data at byte %d: %w", d.offset, err)
 	}
-	if n < 1 || v < 1 || v > MaxTagValue {
+	if n < 1 || v < 1 || (v>>3) > MaxTagValue {
 		return 0, -1, fmt.Errorf("invalid tag value (%d) at byte %d: %w", v, d.offset, ErrInvalidFieldTag)
 	}
 	d.offset += n
